@@ -3,7 +3,7 @@ shown to fit.
 
 For a label that is not bound yet the rel8 form is range-checked when the label is bound (bind_label -> write_offset).  For a
 displacement that is already known (bound label, absolute target with a known base) nothing checks later: `writer.emit8(disp)`
-keeps the low byte.  In x86 Assembler::_emit every emit8() whose argument is computed from `rel32` is reached only on the taken edge
+keeps the low byte.  In x86 Assembler::_emit every emit8() whose argument is computed from the local that holds the known displacement (the one emit32u_le() writes in the long form) is reached only on the taken edge
 of Support::is_int_n<8>() of the same expression (casts ignored, a local initialised from the expression counts as the expression)."""
 import re
 from . import cfg
@@ -11,7 +11,7 @@ from .must import Must
 
 
 def run(chk, unit="asmjit/x86/x86assembler.cpp", rule="R-DISP8-FITS"):
-    chk.rule(rule, "x86 _emit: every writer.emit8(E) with E computed from the known displacement `rel32` is dominated by the true edge of "
+    chk.rule(rule, "x86 _emit: every writer.emit8(E) with E computed from the known displacement (the local emit32u_le() writes as DISP32) is dominated by the true edge of "
                    "Support::is_int_n<8>(E): a short branch to an already bound label that is farther than 127 bytes away is refused "
                    "(kInvalidDisplacement), not truncated")
     f = chk.facts(unit, funcs=r"x86::Assembler::_emit$")
@@ -23,15 +23,50 @@ def run(chk, unit="asmjit/x86/x86assembler.cpp", rule="R-DISP8-FITS"):
                 if v.get("init") is not None:
                     inits[v["did"]] = v["init"]
 
+    def from_label(e, depth=0):
+        """the value is computed from the offset of a bound label (LabelEntry::offset()), possibly through initialised locals"""
+        x = fn.e(e)
+        if x is None or depth > 12:
+            return False
+        if x["k"] == "mcall" and x.get("cn") == "offset" and "Label" in (x.get("callee") or ""):
+            return True
+        if x["k"] == "ref" and x.get("dk") == "local" and x.get("did") in inits and depth < 8:
+            return from_label(inits[x["did"]], depth + 1)
+        return any(from_label(c, depth + 1) for c in fn.children(e))
+
+    # the locals that hold the known displacement: 32-bit locals written by emit32u_le() that are assigned a computed value somewhere
+    disp = set()
+    emitted = set()
+    for i, x in fn.calls(lambda x: x["k"] == "mcall" and x.get("cn") == "emit32u_le" and x.get("args")):
+        y = fn.e(fn.strip(x["args"][0]))
+        if y is not None and y["k"] == "ref" and y.get("dk") == "local":
+            emitted.add(y["did"])
+    for x in fn.ex.values():
+        if x["k"] == "binop" and x["op"] == "=":
+            l = fn.e(fn.strip(x["lhs"]))
+            r = fn.e(fn.strip(x["rhs"]))
+            if l is not None and l["k"] == "ref" and l.get("did") in emitted and r is not None and from_label(x["rhs"]):
+                disp.add(l["did"])
+    chk.need(bool(disp), "no local of x86 _emit is both computed from LabelEntry::offset() and written by emit32u_le()")
+
+    def derives(e, depth=0):
+        x = fn.e(e)
+        if x is None or depth > 12:
+            return False
+        if x["k"] == "ref" and x.get("did") in disp:
+            return True
+        if x["k"] == "ref" and x.get("dk") == "local" and x.get("did") in inits and depth < 6:
+            return derives(inits[x["did"]], depth + 1)
+        return any(derives(c, depth + 1) for c in fn.children(e))
+
     def norm(e, depth=0):
         x = fn.e(e)
         while x is not None and x["k"] in ("cast", "paren"):
             e = x["sub"]
             x = fn.e(e)
-        if x is not None and x["k"] == "ref" and x.get("dk") == "local" and x.get("did") in inits and x.get("name") != "rel32" and depth < 3:
-            t = norm(inits[x["did"]], depth + 1)
-            if "rel32" in t:
-                return t
+        if x is not None and x["k"] == "ref" and x.get("dk") == "local" and x.get("did") in inits and x.get("did") not in disp and depth < 3:
+            if derives(inits[x["did"]]):
+                return norm(inits[x["did"]], depth + 1)
         return re.sub(r"\s+|\b(?:u?int(?:8|16|32|64)_t)\(", "", fn.text(e)).replace("(", "").replace(")", "")
 
     def edge(b, si, atom, holds):
@@ -43,9 +78,9 @@ def run(chk, unit="asmjit/x86/x86assembler.cpp", rule="R-DISP8-FITS"):
     par = fn.parent_map()
     n = 0
     for i, x in sorted(fn.calls(lambda x: x["k"] == "mcall" and x.get("cn") == "emit8" and x.get("args"))):
-        t = norm(x["args"][0])
-        if "rel32" not in t:
+        if not derives(x["args"][0]):
             continue
+        t = norm(x["args"][0])
         n += 1
         st = m.before(i)
         j = i
